@@ -11,6 +11,7 @@ import (
 	"context"
 	"errors"
 	"fmt"
+	"io"
 	"net"
 	"sort"
 	"strconv"
@@ -153,6 +154,12 @@ type Broker struct {
 	Down          bool // Dial fails
 }
 
+// Fault scripts what happens to one metadata request (the n-th the cluster receives after the script was set).
+type Fault struct {
+	Kind  string        // "" answer normally, "stall" never answer (the connection stays open), "delay" answer after Delay, "drop" close the connection without answering
+	Delay time.Duration // for "delay"
+}
+
 type Committed struct {
 	Offset   int64
 	Metadata string
@@ -183,6 +190,14 @@ type Cluster struct {
 	CommitErr  map[string]map[int32]int16 // topic → partition → error answered by OffsetCommit / OffsetFetch
 	// AutoCreate: a metadata request with AllowAutoTopicCreation creates unknown topics (1 partition on the controller)
 	AutoCreate bool
+
+	// MetaFaults is consumed one element per metadata request received (front first); empty = answer normally.
+	MetaFaults []Fault
+	// DialFailures makes the next n Dial calls fail (any address).
+	DialFailures int
+	// FaultsDone counts consumed MetaFaults elements whose Kind is not ""; LastFaultAt is when the last one arrived.
+	FaultsDone  int
+	LastFaultAt time.Time
 
 	journal    []Entry
 	connSeq    int
@@ -279,6 +294,11 @@ func (c *Cluster) Dial(ctx context.Context, network, addr string) (net.Conn, err
 			br = b
 		}
 	}
+	if c.DialFailures > 0 {
+		c.DialFailures--
+		c.mu.Unlock()
+		return nil, fmt.Errorf("%w: %s (scripted dial failure)", ErrUnreachable, addr)
+	}
 	if br == nil || br.Down {
 		c.mu.Unlock()
 		return nil, fmt.Errorf("%w: %s", ErrUnreachable, addr)
@@ -335,6 +355,27 @@ func (c *Cluster) serve(broker int32, cid int, addr string, conn net.Conn) {
 		c.mu.Lock()
 		c.journal = append(c.journal, Entry{Seq: len(c.journal), Broker: broker, ConnID: cid, ApiKey: msg.ApiKey(), Version: ver, Req: msg, Time: time.Now(), First: first, Addr: addr})
 		first = false
+		var fault Fault
+		if _, isMeta := msg.(*metadata.Request); isMeta && len(c.MetaFaults) > 0 {
+			fault, c.MetaFaults = c.MetaFaults[0], c.MetaFaults[1:]
+			if fault.Kind != "" {
+				c.FaultsDone++
+				c.LastFaultAt = time.Now()
+			}
+		}
+		switch fault.Kind {
+		case "stall": // never answer: hold the connection until the client gives up and closes it
+			c.mu.Unlock()
+			io.Copy(io.Discard, conn)
+			return
+		case "drop":
+			c.mu.Unlock()
+			return
+		case "delay":
+			c.mu.Unlock()
+			time.Sleep(fault.Delay)
+			c.mu.Lock()
+		}
 		res := c.handle(broker, ver, msg)
 		c.mu.Unlock()
 		if res == nil {
